@@ -33,7 +33,7 @@ CHUNK = 256
 
 def _o_filter(case):
     # fault-free worlds on <=3 layers and the plain n=4 naming family, no options
-    return (case[0] != 'cli' and not case[7] and case[8] in ('none', 'rep', 'j2')
+    return (case[0] not in ('cli', 'big') and not case[7] and case[8] in ('none', 'rep', 'j2')
             and (case[0] <= 3 or (isinstance(case[3], list) and case[3] == sorted(case[3]))))
 
 
@@ -117,6 +117,11 @@ def cases(tier, seed):
                     for nie in range(n):
                         yield [n, g, kind, list(perm), None, list(range(n)), False,
                                {nie: {'tearDown': 'NIE'}}, 'none']
+    # a world that is not small: 12 layers (a chain of 3 + 9 independent), 40
+    # tests each, with one layer at a time that cannot be torn down
+    for nie in (None, 0, 2, 6, 11):
+        for ok in ('none', 'j2', 'j3', 'rep', 'shuf'):
+            yield ['big', nie, ok]
     # real processes: "the remaining layers run in fresh subprocesses"
     for shape in CLI_SHAPES:
         nl = len(CLI_SHAPES[shape][0])
@@ -248,6 +253,26 @@ def run_case(case):
         return {'evals': 1, 'nontrivial': True, 'nogate': True,
                 'violations': [{'clause': c, 'sig': s, 'detail': d} for c, s, d in vs],
                 'outcome': 'cli', 'counters': {'real_process_runs': 1}}
+    if case[0] == 'big':
+        from vt import ow
+        spec = ow.big_spec(nie=case[1], scripts=['pass', 'pass', 'fail', 'skip_body'])
+        argv = list(OPTS[case[2]])
+        res = runrt.run_world(spec, argv)
+        sv = monitors.SpecView(spec)
+        states, transitions = set(), set()
+        viol = []
+        if res.escaped:
+            viol.append({'clause': 'run_aborted', 'sig': {'opt': case[2], 'kind': 'big'}, 'detail': res.escaped_tb})
+        for clause, detail in monitors.check_layer_stack(sv, res, states, transitions):
+            viol.append({'clause': clause, 'sig': {'opt': case[2], 'kind': 'big'}, 'detail': detail[:2000]})
+        ex = collections.Counter(tid for vpid, tid in monitors.executed(res))
+        want = 2 if case[2] == 'rep' else 1
+        wrong = {t: c for t, c in ex.items() if c != want}
+        if wrong or len(ex) != len(spec['tests']):
+            viol.append({'clause': 'executed_count', 'sig': {'opt': case[2], 'kind': 'big'},
+                         'detail': '%d of %d tests executed, wrong counts for %s' % (len(ex), len(spec['tests']), dict(list(wrong.items())[:10]))})
+        return {'nontrivial': True, 'violations': viol, 'states': states, 'transitions': transitions,
+                'outcome': ('big', len(res.children))}
     n, g, kind, naming, hookless, owners, unit, faults, ok = case
     spec, argv = build_spec(case)
     res = runrt.run_world(spec, argv)
